@@ -8,7 +8,7 @@ import warnings
 import numpy as np
 
 from . import checks, oracles as O, shim
-from .canon import canon, deep, diff, diff_sections
+from .canon import STATE_SECTIONS, canon, deep, diff, diff_sections
 from .ops import node_time, role_of
 from .session import Monitor, violation
 
@@ -23,6 +23,7 @@ OP2CLS = {
     "undo": "undo",
     "redo": "redo",
     "features": "features",
+    "prim_seg": "UpdateNodeSeg+inverse",
 }
 EDIT_OPS = {"add_node", "delete_node", "add_edge", "delete_edge", "swap", "update_attrs", "paint"}
 
@@ -81,8 +82,8 @@ class InverseMonitor(Monitor):
         k = rec.op["op"]
         if not rec.out.ok or not is_real_call(rec):
             return out
-        pre = {x: rec.pre[x] for x in ("nodes", "edges", "seg")}
-        post = {x: rec.post[x] for x in ("nodes", "edges", "seg")}
+        pre = {x: rec.pre[x] for x in STATE_SECTIONS}
+        post = {x: rec.post[x] for x in STATE_SECTIONS}
         with warnings.catch_warnings():
             warnings.simplefilter("ignore")
             if k in EDIT_OPS:
@@ -320,7 +321,7 @@ class TimelineMonitor(Monitor):
         k = rec.op["op"]
         t = sess.tracks
         out = []
-        now = {x: rec.post[x] for x in ("nodes", "edges", "seg")}
+        now = {x: rec.post[x] for x in STATE_SECTIONS}
         s = rec.summary
         if k in EDIT_OPS:
             nh = len(s["history"])
@@ -577,6 +578,39 @@ class LookupMonitor(Monitor):
                                      f"C06/{c}/{OP2CLS[k]}/{sig(rec)}"))
                 break
         self.bad = now_bad
+        # an id that this call put on the graph for the first time labels ONE segment /
+        # component: an id issued twice inside one action shows up as one new id on two
+        if not out and rec.out.ok and k != "features":
+            t = sess.tracks
+            tk, lk = t.features.tracklet_key, t.features.lineage_key
+            for key, part, what in ((tk, O.segment_partition, "track"),
+                                    (lk, O.component_partition, "lineage")):
+                old = {a.get(key) for a in rec.pre["nodes"].values()}
+                new: dict = {}
+                for n, a in rec.post["nodes"].items():
+                    if a.get(key) is not None and a.get(key) not in old:
+                        new.setdefault(a.get(key), set()).add(n)
+                if not new:
+                    continue
+                self.evals += 1
+                self.count(f"new-{what}-ids-seen", len(new))
+                tkey = t.features.time_key
+                times = {n: a[tkey] for n, a in rec.post["nodes"].items()}
+                comp_of = {}
+                for i, c in enumerate(part(times, list(rec.post["edges"]))):
+                    for n in c:
+                        comp_of[n] = i
+                for i_, ns in new.items():
+                    if len({comp_of[n] for n in ns}) > 1:
+                        out.append(violation(
+                            f"fresh-{what}-issued-twice",
+                            f"after {rec.op}: new {what} id {i_} labels nodes {sorted(ns)} which "
+                            f"lie in {len({comp_of[n] for n in ns})} different "
+                            f"{'segments' if what == 'track' else 'components'}",
+                            f"C06/fresh-{what}-issued-twice/{OP2CLS[k]}/{sig(rec)}"))
+                        break
+                if out:
+                    break
         if not out and self.rng.random() < 0.3:
             n = self.rng.choice([1, 3])
             self.evals += 1
@@ -756,14 +790,15 @@ class IouMonitor(Monitor):
         if rec.out.ok:
             self.keys.add(f"{path}/{k}/{sig(rec)}")
         # differential clause: bulk recomputation on a copy must agree with what is stored
-        if not out and "iou" in t.annotators.features and self.rng.random() < self.rate:
+        ik = checks.iou_key(t)
+        if not out and ik in t.annotators.features and self.rng.random() < self.rate:
             c = checks.detached_copy(t)
             with warnings.catch_warnings():
                 warnings.simplefilter("ignore")
-                c.enable_features(["iou"])
+                c.enable_features([ik])
             for u, v in t.graph.edges:
-                a = t.get_edge_attr((u, v), "iou")
-                b = c.get_edge_attr((u, v), "iou")
+                a = t.get_edge_attr((u, v), ik)
+                b = c.get_edge_attr((u, v), ik)
                 skip = node_time(t, v) - node_time(t, u) != 1
                 self.evals += 1
                 self.count("differential-skip" if skip else "differential-consecutive")
@@ -826,7 +861,7 @@ class RefreshMonitor(Monitor):
     def step(self, sess, rec):
         if not is_real_call(rec):
             return []
-        if rec.out.exc_type == "HANG":
+        if rec.out.exc_type == "HANG" or rec.op["op"] in ("prim_seg", "features"):
             return []
         k = rec.op["op"]
         cls = OP2CLS[k]
@@ -923,14 +958,15 @@ class FeatureSwitchMonitor(Monitor):
                 out.append(violation("values", f"{where}: {lk}: {m}", f"C10/values/{lk}"))
                 break
         if t.segmentation is not None:
-            rp = [k for k in keys if k not in (tk, lk, "iou")]
+            ik = checks.iou_key(t)
+            rp = [k for k in keys if k not in (tk, lk, ik)]
             if rp:
                 p, n = checks.regionprops_values(t, only=set(rp))
                 self.evals += n
                 for c, m in p:
                     out.append(violation("values", f"{where}: {m}", f"C10/values/{c}"))
                     break
-            if "iou" in keys:
+            if ik in keys:
                 p, n = checks.iou_values(t)
                 self.evals += sum(n.values())
                 for c, m in p:
@@ -942,7 +978,7 @@ class FeatureSwitchMonitor(Monitor):
         g = t.graph
         # the identity of the attribute dict (kept alive by the snapshot, so its id cannot be
         # reused) tells whether the element was re-created
-        if key == "iou":
+        if key == checks.iou_key(t):
             return {(int(u), int(v)): (a, norm_(a.get(key)))
                     for u, v, a in g.edges(data=True)}
         return {int(n): (a, norm_(a.get(key))) for n, a in g.nodes(data=True)}
